@@ -75,7 +75,11 @@ class OperatorTable(Expression):
         return self.operands.always_succeeds()
 
     def can_partially_succeed(self):
-        return not self.always_succeeds() and self.operands.can_partially_succeed()
+        if self.always_succeeds():
+            return False
+        # When the very first operand is missing, we may already have consumed
+        # some prefix operators.
+        return self.operands.can_partially_succeed() or self.prefixes is not None
 
     def complain(self):
         return 'Unexpected input'
